@@ -308,6 +308,7 @@ def route_table():
   blk = lambda: qs([F(1), F(-2), F(3), F(1), F(0), F(2)])
   fc = lambda f: [sorted((k, str(fr(v))) for k, v in f.numpoly.terms()), str(fr(f.error))]
   T["levinson_durbin"] = (levinson_durbin, [("acdata", lambda: qs([F(5), F(2), F(1), F(1, 2)])), ("order", c(2))], fc)
+  T["levinson_durbin(order>=len)"] = (levinson_durbin, [("acdata", lambda: qs([F(5), F(2), F(1), F(1, 2)])), ("order", c(6))], fc)
   T["lpc.kautocor"] = (lpc.kautocor, [("blk", blk), ("order", c(2))], fc)
   T["lpc.kcovar"] = (lpc.kcovar, [("blk", blk), ("order", c(2))], fc)
   T["acorr"] = (acorr, [("blk", blk), ("max_lag", c(3))], lambda v: [str(fr(e)) for e in v])
